@@ -521,7 +521,7 @@ func (s *vcfgStation) served(ph string, src pb.RegistrationSource, sharing bool,
 	s.rm.EnableShareOverAPI, s.rm.PreshareEndpoint = sharing, "http://127.0.0.1:1/verif-no-peer"
 	s.rm.ingestRegistration(d)
 	s.rm.EnableShareOverAPI, s.rm.PreshareEndpoint = oldShare, oldEP
-	for _, r := range s.rm.registeredDecoys.getRegistrations(net.ParseIP(ph)) {
+	for _, r := range vMapAs[*DecoyRegistration](s.rm.registeredDecoys.getRegistrations(net.ParseIP(ph))) {
 		if r == d && r.Valid {
 			return true
 		}
